@@ -200,7 +200,12 @@ def check_C17(c):
         outs = list(ex.map(lambda a: [_cli_under_seed(a, stream, s) for s in (0, 1, 2, 12345)], optsets))
     for a, o in zip(optsets, outs):
         traces.append({'kind': 'cliseeds', 'args': a, 'outs': o})
-    c.judge('J_Purity', traces, 'purity', nontrivial=lambda t: t['kind'] == 'cliseeds' or len(t['hist']) >= 3)
+    # documented calls that take a mutable plain argument
+    plain = pmake([('tr_plaincall', dict(call=k, model=mdl, seed=c.seed * 100 + i))
+                   for k in ('Model.reify', 'Model.reify(no variables)', 'format_triples', 'Graph', 'dumps', 'Model')
+                   for mdl in ('amr', 'miniamr') for i in range(_q(c, 12, 200))])
+    traces += plain
+    c.judge('J_Purity', traces, 'purity', nontrivial=lambda t: t['kind'] in ('cliseeds', 'plaincall') or len(t['hist']) >= 3)
     # API surface outside the listed properties (specification growth): reported as drift only
     jobs = []
     for i in range(_q(c, 300, 5000)):
